@@ -63,6 +63,22 @@ pub const LIT_POOL: [i64; 30] = [
     -0x1234_5678_9abc_def0,
 ];
 
+/// literals built from halfwords 0x0000 / 0xFFFF / arbitrary: every MOVZ/MOVN/MOVK synthesis shape
+pub fn halfword_pattern(rng: &mut Rng) -> i64 {
+    let mut v: u64 = 0;
+    for i in 0..4 {
+        let h: u64 = match rng.below(7) {
+            0 | 1 => 0,
+            2 | 3 => 0xffff,
+            4 => 1,
+            5 => 0x8000,
+            _ => rng.next() & 0xffff,
+        };
+        v |= h << (16 * i);
+    }
+    v as i64
+}
+
 impl GenCfg {
     /// swarm configuration drawn from the seed
     pub fn swarm(rng: &mut Rng, max_live_cap: usize, max_args: usize, allow_print: bool, max_stmts: usize) -> GenCfg {
@@ -206,10 +222,10 @@ impl<'a> Gen<'a> {
 
     fn lit_value(&mut self) -> i64 {
         if self.rng.pct(self.cfg.big_lit_pct) {
-            if self.rng.pct(70) {
-                *self.rng.pick(&LIT_POOL)
-            } else {
-                self.rng.next() as i64
+            match self.rng.below(10) {
+                0..=3 => *self.rng.pick(&LIT_POOL),
+                4..=7 => halfword_pattern(self.rng),
+                _ => self.rng.next() as i64,
             }
         } else {
             self.rng.range(-20, 100)
